@@ -416,7 +416,7 @@ pub fn corpus() -> &'static Vec<Artefact> {
                     });
                 }
             }
-            if proj.toml.contains("[config") || i % 25 == 0 {
+            if proj.toml.contains("[config") || proj.toml.contains("compiler") || i % 25 == 0 {
                 arts.push(Artefact {
                     kind: Kind::Toml,
                     id: format!("{}/aiken.toml", proj.id),
@@ -429,11 +429,14 @@ pub fn corpus() -> &'static Vec<Artefact> {
         // the manifest `aiken new` writes (ProjectConfig::default + save)
         {
             let disk = RunDisk::new();
-            let name = aiken_project::package_name::PackageName { owner: "sim".into(), repo: "fresh".into() };
-            let cfg = ProjectConfig::default(&name);
-            if cfg.save(&disk.root).is_ok() {
-                if let Ok(t) = std::fs::read_to_string(disk.root.join("aiken.toml")) {
-                    arts.push(Artefact { kind: Kind::Toml, id: "aiken-new/aiken.toml".into(), bytes: t.into_bytes(), alt: None, hot: vec![] });
+            for (n, (owner, repo)) in [("sim", "fresh"), ("acme", "escrow-v2"), ("o", "r"), ("cardano-foundation", "treasury_contracts"), ("x9", "a_b-c")].iter().enumerate() {
+                let name = aiken_project::package_name::PackageName { owner: owner.to_string(), repo: repo.to_string() };
+                let cfg = ProjectConfig::default(&name);
+                if cfg.save(&disk.root).is_ok() {
+                    if let Ok(t) = std::fs::read_to_string(disk.root.join("aiken.toml")) {
+                        let id = if n == 0 { "aiken-new/aiken.toml".to_string() } else { format!("aiken-new-{n}/aiken.toml") };
+                        arts.push(Artefact { kind: Kind::Toml, id, bytes: t.into_bytes(), alt: None, hot: vec![] });
+                    }
                 }
             }
         }
@@ -758,7 +761,8 @@ fn gen_fault(rng: &mut Rng, a: &Artefact) -> Fault {
         }
         rng.usize_below(n)
     };
-    if a.kind.is_text() && rng.chance(1, 6) {
+    // (manifests are small and made of little else than quoted values: half of their faults)
+    if a.kind.is_text() && rng.chance(1, if a.kind == Kind::Toml { 2 } else { 6 }) {
         // The same fault kinds with positions aligned to a quoted string: its content lost,
         // cut short, or written twice (a block boundary falling on a token boundary).
         let quotes: Vec<usize> = a.bytes.iter().enumerate().filter(|(_, b)| **b == b'"').map(|(i, _)| i).collect();
